@@ -378,6 +378,9 @@ def r5(ctx: Ctx) -> None:
                 ctx.check(cells == {("1", "2"), ("2", "1")} and len(sts) == 2, f, l.node, "each configured correlation is written to both mirrored cells", "corr[i1, i2] = corr[i2, i1] = corr", str(sorted(cells)))
         # covariance and Cholesky
         ch = [e for e in calls(p, into_loops=False) if e.name == "cholesky"]
+        if not ch:
+            ctx.unrec(f, f.node, "lower-triangular Cholesky factor of the covariance", "no factorisation on this path (the factor is taken from somewhere else, e.g. a memo): not modelled", p.describe()[:160])
+            continue
         ctx.check(len(ch) == 1 and dict(ch[0].kwargs).get("lower") == ("const", True), f, f.node, "lower-triangular Cholesky factor", "cholesky(cov, lower=True)", f"{len(ch)} call(s), lower={short(dict(ch[0].kwargs).get('lower')) if ch else '-'}")
         if len(ch) == 1:
             cov = NV(ch[0].args[0])
@@ -434,3 +437,11 @@ def h1(ctx: Ctx) -> None:
 
     n = check_no_carry_over(ctx)
     ctx.require(n >= 3, "expansion loops not found")
+
+
+@rule("C12.R7", "everything a generator changes in place (series, parameters, memos) belongs to that generator object", "per-instance state", floor=3)
+def r7(ctx: Ctx) -> None:
+    from .events import check_instance_state
+
+    n = check_instance_state(ctx, "Fundamentals")
+    ctx.require(n >= 3, "Fundamentals: containers changed in place not found (prices, drifts, correlation, ... expected)")
